@@ -321,7 +321,9 @@ class Evaluator(Folder):
                                 target = self.repo.resolve_expr(self.mod, f, self.cls)
                             except Exception:
                                 target = None
-                    if target is not None and not isinstance(target, ClassInfo) and type(target).__name__ != "External":
+                    if isinstance(target, ClassInfo) or type(target).__name__ == "_TypeOf":
+                        name = (target if isinstance(target, ClassInfo) else target.cls).name  # a class held in a variable
+                    if target is not None and not isinstance(target, ClassInfo) and type(target).__name__ not in ("External", "_TypeOf"):
                         v = self.fold(st.exc)
                         if isinstance(v, AExc):
                             r0 = Raised(v.cls_name, st)
@@ -1217,6 +1219,10 @@ def module_call_hook(ctx: Any, module: Any, evaluate: Sequence[str], log: List[A
                 target = r
         if target is not None:
             name = target.name
+            # (a function imported under another name is known to the rule by the name it is called with)
+            alias = e.func.id if isinstance(e.func, ast.Name) else e.func.attr
+            if alias != name and ((record is not None and alias in record) or alias in results or alias in evaluate):
+                name = alias
             args = fold_args(f, e)
             kwargs = {k.arg: f.fold(k.value) for k in e.keywords if k.arg}
             if (record is not None and name not in record) or (record is None and name in evaluate):
